@@ -22,6 +22,7 @@ const (
 	bidTarget = ptttype.Bid(2) // ordinary board: article readers, name listings, hot list, by-bid, summary
 	bidPlain  = ptttype.Bid(3) // public control board, never varied
 	bidGroup  = ptttype.Bid(4) // group board: class listings
+	bidZebra  = ptttype.Bid(5) // public board sorted after the target: keeps a plain user's name listing as long as the target's slot
 
 	uidReader = ptttype.UID(2)
 	uidBuddy  = ptttype.UID(3)
@@ -37,7 +38,7 @@ const (
 	tmplBody = "template zero\n"
 )
 
-var boardNames = map[ptttype.Bid]string{bidRoot: "1...........", bidTarget: "Target", bidPlain: "Plain", bidGroup: "TGroup"}
+var boardNames = map[ptttype.Bid]string{bidRoot: "1...........", bidTarget: "Target", bidPlain: "Plain", bidGroup: "TGroup", bidZebra: "Zebra"}
 
 func fatalf(f string, a ...interface{}) {
 	fmt.Fprintf(os.Stderr, "c07: "+f+"\n", a...)
@@ -110,7 +111,7 @@ func setupFixture() {
 
 	// ---- boards -----------------------------------------------------------------------
 	var brd bytes.Buffer
-	for b := ptttype.Bid(1); b <= 4; b++ {
+	for b := ptttype.Bid(1); b <= 5; b++ {
 		h := &ptttype.BoardHeaderRaw{}
 		copy(h.Brdname[:], boardNames[b])
 		copy(h.Title[:], titleText)
@@ -143,8 +144,8 @@ func setupFixture() {
 	if err := env.ResetSHM(); err != nil {
 		fatalf("ResetSHM: %v", err)
 	}
-	if n := cache.NumBoards(); n != 4 {
-		fatalf("board cache holds %d boards, want 4", n)
+	if n := cache.NumBoards(); n != 5 {
+		fatalf("board cache holds %d boards, want 5", n)
 	}
 	for k, v := range defaultTable {
 		curTable[k] = v
@@ -153,7 +154,7 @@ func setupFixture() {
 	cache.Shm.Shm.HBcache[0] = bidTarget.ToBidInStore()
 	cache.Shm.Shm.HBcache[1] = bidPlain.ToBidInStore()
 	cache.Shm.Shm.NHOTs = 2
-	for b := ptttype.Bid(1); b <= 4; b++ {
+	for b := ptttype.Bid(1); b <= 5; b++ {
 		for k := range cache.Shm.Shm.BMCache[b-1] {
 			cache.Shm.Shm.BMCache[b-1][k] = -1
 		}
